@@ -241,6 +241,22 @@ CHECKS["C13"] = (
     "5/C13",
 )
 
+CHECKS["C14"] = (
+    "model_checking",
+    "deviation-bounded exhaustive enumeration of engine recipes through the real FLL exporter/importer with text, structure and behaviour oracles",
+    "Five base engines and every single-field deviation from them (thorough: every pair of deviations from different "
+    "field groups on two bases), each field ranging over its whole alphabet (all 20 shape terms and Constant/Linear/"
+    "Function with their parameter shapes, heights, every norm or none per role, every defuzzifier/parameter, every "
+    "activation method/parameter incl. all comparators, flags, defaults, ranges, descriptions, names, weights) x "
+    "decimals {3,9,1} (thorough 1..9): export-import-export must reproduce the text, an independent walker must find "
+    "the same structure, representable engines must compute bit-identical outputs on an input grid, and accepted text "
+    "variants (comments, blank lines, key order, omitted keys, int-looking / over-precise numbers) must be normalised "
+    "to a fixed point by one cycle.",
+    "Rules are always enabled (FLL has no per-rule flag); descriptions without leading/trailing blanks; the known "
+    "finding C14-height-weight-prints-as-one is matched only for decimals < 3 and a height/weight that prints as 1.",
+    "5/C14",
+)
+
 REASON_NOT_BUILT = "check not built yet in this phase (planned in DESIGN.md section 5); no claim is made"
 
 
